@@ -548,6 +548,8 @@ class AsyncClient(base_client.BaseClient):
 
     async def _read_loop_polling(self):
         """Read packets by polling the Engine.IO server."""
+        # the queue identifies the connection this task belongs to
+        queue = self.queue
         while self.state == 'connected' and self.write_loop_task:
             self.logger.info(
                 'Sending polling GET request to ' + self.base_url)
@@ -580,7 +582,7 @@ class AsyncClient(base_client.BaseClient):
         if self.write_loop_task:  # pragma: no branch
             self.logger.info('Waiting for write loop task to end')
             await self.write_loop_task
-        if self.state == 'connected':
+        if self.state == 'connected' and self.queue is queue:
             await self._trigger_event(
                 'disconnect', self.reason.TRANSPORT_ERROR, run_async=False)
             try:
@@ -592,6 +594,8 @@ class AsyncClient(base_client.BaseClient):
 
     async def _read_loop_websocket(self):
         """Read packets from the Engine.IO WebSocket connection."""
+        # the queue identifies the connection this task belongs to
+        queue = self.queue
         while self.state == 'connected':
             p = None
             try:
@@ -635,7 +639,7 @@ class AsyncClient(base_client.BaseClient):
         if self.write_loop_task:  # pragma: no branch
             self.logger.info('Waiting for write loop task to end')
             await self.write_loop_task
-        if self.state == 'connected':
+        if self.state == 'connected' and self.queue is queue:
             await self._trigger_event(
                 'disconnect', self.reason.TRANSPORT_ERROR, run_async=False)
             try:
